@@ -74,7 +74,7 @@ fn build_subject(spec: &CoreSpec, sat_cache: &std::sync::Mutex<std::collections:
         }
         Some(k) => {
             let key = format!("{:?}", spec.whist);
-            let mut g = sat_cache.lock().unwrap();
+            let mut g = sat_cache.lock().unwrap_or_else(|e| e.into_inner());
             if !g.contains_key(&key) {
                 let tmp = Report::new("C09", "quick", "exploration");
                 let st = Stats::default();
@@ -372,6 +372,34 @@ fn proof_sweep(spec: &CoreSpec, s: &mut Subject, rep: &Report, stats: &Stats, qu
             }
             let p = Proof { fork: 0, block: opt(x, &hon.block), hash: if y && !x { hon.hash.clone() } else { None }, seek: if z { hon.seek.clone() } else { None }, upgrade: Some(u.clone()) };
             run(p, "upgrade", &mut count, &mut verdicts);
+        }
+    }
+    // honest partial upgrades (they carry additional nodes) with every node index of the upgrade
+    // section replaced by every small tree index: the walks that place those nodes must terminate
+    {
+        let mut w = c03::build_writer(&spec.whist);
+        let wl = w.model.len();
+        for start in 0..wl.min(3) {
+            for l in start + 1..=wl {
+                let Out::Ok(Some(hp)) = guard(w.core.c().create_proof(None, None, None, Some(RequestUpgrade { start, length: l - start }))) else { continue };
+                let Some(u) = hp.upgrade.as_ref() else { continue };
+                for which in 0..2 {
+                    let list = if which == 0 { &u.nodes } else { &u.additional_nodes };
+                    for k in 0..list.len() {
+                        let (_, sz, h) = node_parts(&list[k]);
+                        for j in 0..=2 * wl + 3 {
+                            let mut p = hp.clone();
+                            let uu = p.upgrade.as_mut().unwrap();
+                            if which == 0 {
+                                uu.nodes[k] = mk_node(j, sz, &h);
+                            } else {
+                                uu.additional_nodes[k] = mk_node(j, sz, &h);
+                            }
+                            run(p, "upgrade-node-index", &mut count, &mut verdicts);
+                        }
+                    }
+                }
+            }
         }
     }
     // fork values and an empty proof
